@@ -940,8 +940,12 @@ impl<'a> ParseState<'a, &'a str> {
             // 三⇒三预算
             _ => Budget::new_triple(p, d, q),
         };
-        // 跳过右括弧
-        self.head_skip_after_spaces(self.format.task.budget_brackets.1);
+        // 跳过右括弧 | 🚩必须存在：否则如`$1.`的「独立变量」会被误当作（未闭合的）预算值，导致词项缺失
+        self.head_skip_spaces();
+        if !self.starts_with(self.format.task.budget_brackets.1) {
+            return self.err("预算值缺少右括弧");
+        }
+        self.head_skip(self.format.task.budget_brackets.1);
         // 直接置入预算值 | 因为先前`consume_one`已经假定「未曾置入预算值」
         let _ = self.mid_result.budget.insert(budget);
         Self::ok_consume()
